@@ -183,6 +183,23 @@ func cmdVerify(args []string) int {
 		reports = append(reports, rep)
 		all = append(all, rep.Obls...)
 	}
+	// behavioural subtyping: every implementation refines the contracts of the interfaces it implements
+	for _, rp := range w.refinePairs() {
+		if *fn != "" && !strings.Contains(","+*fn+",", ","+rp.Key+",") && !strings.Contains(","+*fn+",", ",refine,") {
+			continue
+		}
+		if *prop == "C09" || (*prop != "" && !hasTag(rp.Iface.tags(), *prop)) {
+			continue
+		}
+		rep := eng.verifyRefine(rp)
+		reports = append(reports, rep)
+		for _, o := range rep.Obls {
+			if *prop != "" && len(o.Tags) > 0 && !hasTag(o.Tags, *prop) {
+				continue
+			}
+			all = append(all, o)
+		}
+	}
 	// lemmas used by the selected functions (or all lemmas when no filter)
 	for _, name := range sortedKeys(w.Lemmas) {
 		lc := w.Lemmas[name]
